@@ -424,7 +424,7 @@ def run(ctx):
         exp = huge_oracle(ln.split())
         if rc != 0 or got != exp:
             hbad += 1
-            ctx.violation("huge-" + ln.split()[1], {"kind": "one call over a buffer of about 4 GiB differs from the standard value (columns: one call, same buffer in ~1 GiB pieces)",
+            ctx.violation("huge-" + ln.split()[1], {"kind": "large-buffer case (0.5 … 4 GiB, sparse) differs from the standard value (crc/check fns: columns one call, same buffer in ~1 GiB pieces; sha256: one call; sha256p: 64 MiB pieces)",
                                                     "op": ln, "impl": got, "python_reference": exp, "stderr": err[-1500:],
                                                     "how_to_replay": "./check C14 --replay <this file>"}, True)
     ctx.cov["huge_single_call"] = {"ops": len(hlines), "failing": hbad,
